@@ -377,7 +377,7 @@ def international_gravity(lat: float, epoch: str = '1980') -> float:
         g_e, b1, b2 = 9.780318, 5.3024e-3, 5.9e-6
     if epoch == '1984':
         g_e, b1, b2 = 9.7803253359, 5.302440112e-3, 5.8e-6
-    lat *= DEG2RAD
+    lat = lat*DEG2RAD
     return g_e*(1.0 + b1*np.sin(lat)**2 - b2*np.sin(2.0*lat)**2)
 
 def welmec_gravity(lat: float, h: float = 0.0) -> float:
@@ -417,7 +417,7 @@ def welmec_gravity(lat: float, h: float = 0.0) -> float:
     """
     if abs(lat) > 90.0:
         raise ValueError("Latitude must be between -90.0 and 90.0 degrees.")
-    lat *= DEG2RAD
+    lat = lat*DEG2RAD
     return 9.780318*(1.0 + 0.0053024*np.sin(lat)**2 - 0.0000058*np.sin(2.0*lat)**2) - 0.000003085*h
 
 class WGS(ReferenceEllipsoid):
